@@ -38,7 +38,8 @@ static uint32_t vrng_below(uint32_t n)
 /* uniform in [lo, hi] */
 static int vrng_range(int lo, int hi)
 {
-	return lo + (int)vrng_below((uint32_t)(hi - lo + 1));
+	uint64_t span = (uint64_t)((int64_t)hi - (int64_t)lo) + 1;
+	return (int)((int64_t)lo + (int64_t)((vrng_next() >> 16) % span));
 }
 
 static int vrng_chance(int percent)
